@@ -1,0 +1,244 @@
+//go:build verif
+// +build verif
+
+// Verification hook for C19 (build tag "verif"), third part: the mood
+// bookkeeping driven through the REAL audit() loop, ended the ways a play
+// ends it: by the terminate{} event of the spotlight supervisor, by
+// cancellation of its context (the conductor's "something went wrong" paths)
+// or by the stopper quiescing.  Only adds an exported entry point.
+
+package cmd
+
+import (
+	"bytes"
+	"context"
+	"fmt"
+	"io/ioutil"
+	"math"
+	"os"
+	"path/filepath"
+	"time"
+
+	"github.com/knz/shakespeare/pkg/crdb/log"
+	"github.com/knz/shakespeare/pkg/crdb/stop"
+)
+
+// VerifMoodLoop starts the real audit() loop on an unbuffered event channel,
+// sends the mood changes (and the act changes, by actNum > 0) in order, ends
+// the loop by endBy = "terminate" | "cancel" | "quiesce" at (about) finalTs on
+// the play's clock, and returns the recorded mood periods and act changes.
+func VerifMoodLoop(events []VerifMoodEvent, actNums []int, finalTs float64, endBy string) (periods []VerifMoodPeriod, acts []VerifActChange, errText string) {
+	defer func() {
+		if r := recover(); r != nil {
+			errText = fmt.Sprintf("panic: %v", r)
+		}
+	}()
+	bg := context.Background()
+	stopper := stop.NewStopper()
+	stopped := false
+	defer func() {
+		if !stopped {
+			stopper.Stop(bg)
+		}
+	}()
+	cfg := newConfig()
+	rep := &verifReporter{start: time.Now(), min: math.Inf(1), max: math.Inf(-1)}
+	evCh := make(chan auditableEvent)
+	collCh := make(chan collectorEvent, 4096)
+	au := &audition{
+		r:       rep,
+		cfg:     cfg,
+		stopper: stopper,
+		logger:  verifC19Logger(bg),
+		res:     &auditionResults{},
+		st:      makeAuditionState(cfg),
+		eventCh: evCh,
+		collCh:  collCh,
+	}
+	ctx, cancel := context.WithCancel(bg)
+	defer cancel()
+	done := make(chan error, 1)
+	go func() { done <- au.audit(ctx) }()
+	send := func(ev auditableEvent) bool {
+		select {
+		case evCh <- ev:
+			return true
+		case err := <-done:
+			errText = fmt.Sprintf("audit ended early: %v", err)
+			return false
+		case <-time.After(10 * time.Second):
+			errText = "audit loop does not receive"
+			return false
+		}
+	}
+	for i, e := range events {
+		if i < len(actNums) && actNums[i] > 0 {
+			if !send(&actChange{ts: e.Ts, actNum: actNums[i]}) {
+				return nil, nil, errText
+			}
+			continue
+		}
+		if !send(&moodChange{ts: e.Ts, newMood: e.Mood}) {
+			return nil, nil, errText
+		}
+	}
+	// the loop is back in its select once a further send would block; a
+	// sigEvent without values is a round that changes nothing
+	if !send(&sigEvent{ts: finalTs}) {
+		return nil, nil, errText
+	}
+	rep.start = time.Now().Add(-time.Duration(finalTs * float64(time.Second)))
+	switch endBy {
+	case "cancel":
+		cancel()
+	case "quiesce":
+		stopped = true
+		go stopper.Stop(bg)
+	default:
+		if !send(terminate{}) {
+			return nil, nil, errText
+		}
+	}
+	select {
+	case <-done:
+	case <-time.After(10 * time.Second):
+		return nil, nil, "audit loop does not end"
+	}
+	for _, p := range au.res.moodPeriods {
+		periods = append(periods, VerifMoodPeriod{Start: p.startTime, End: p.endTime, Mood: p.mood})
+	}
+	for _, c := range au.res.actChanges {
+		acts = append(acts, VerifActChange{Ts: c.ts, ActNum: c.actNum})
+	}
+	return periods, acts, ""
+}
+
+// VerifCollectAndPlotMoods is VerifCollectAndPlot with one more kind of event,
+// "mood" (Val = the new mood), fed through the real collectMoodChange.
+// It parses cfgText, feeds the events through the real
+// collector functions, installs the mood periods and act changes, and calls
+// the real assemble and plot.  CollectErr is the first error a collector
+// function returned (later events are still fed).
+func VerifCollectAndPlotMoods(
+	cfgText string, events []VerifCollectEvent, moods []VerifMoodPeriod, acts []VerifActChange, numRepeats int,
+) (out VerifPlotOutput, collectErr string, csv []string) {
+	defer func() {
+		if r := recover(); r != nil {
+			out.Panic = fmt.Sprintf("%v", r)
+		}
+	}()
+	cfg, err := verifParseString(cfgText, nil)
+	if err != nil {
+		out.ParseErr = err.Error()
+		return out, "", nil
+	}
+	tmp, err := ioutil.TempDir("", "shk-verif-colplot")
+	if err != nil {
+		panic(err)
+	}
+	defer os.RemoveAll(tmp)
+	cfg.dataDir = tmp
+	var narration bytes.Buffer
+	cfg.narration = &narration
+	cfg.gnuplotPath = filepath.Join(tmp, "no-such-gnuplot")
+	cfg.avoidTimeProgress = true
+	if err := os.MkdirAll(filepath.Join(tmp, "csv"), 0755); err != nil {
+		panic(err)
+	}
+
+	out.Actors = append([]string(nil), cfg.actorNames...)
+	out.RepeatActNum = cfg.repeatActNum
+	out.NumActs = len(cfg.play)
+	out.TextW, out.TextH, out.TextTerm = cfg.textPlotWidth, cfg.textPlotHeight, cfg.textPlotTerm
+	for _, n := range cfg.audienceNames {
+		a := cfg.audience[n]
+		m := VerifPlotMember{
+			Name: a.name, Ylabel: a.observer.ylabel, DisablePlot: a.observer.disablePlot,
+			IsAuditor: a.auditor.expectFsm != nil || len(a.auditor.assignments) > 0,
+			ActiveSrc: a.auditor.activeCond.src, ExpectSrc: a.auditor.expectExpr.src,
+		}
+		if a.auditor.expectFsm != nil {
+			m.ExpectFsm = a.auditor.expectFsm.name
+		}
+		for _, vn := range a.observer.obsVarNames {
+			m.Vars = append(m.Vars, VerifPlotVar{Actor: vn.actorName, Sig: vn.sigName, DrawEvents: a.observer.obsVars[vn].drawEvents})
+		}
+		out.Members = append(out.Members, m)
+	}
+
+	ctx := context.Background()
+	stopper := stop.NewStopper()
+	defer stopper.Stop(ctx)
+	ap := newApp(ctx, cfg)
+	defer ap.close()
+	ap.startTime = time.Now()
+	col := &collector{
+		r:       ap,
+		cfg:     cfg,
+		stopper: stopper,
+		st:      makeCollectorState(cfg),
+		logger:  log.NewSecondaryLogger(ctx, nil, "collector", true, false),
+	}
+	defer log.VerifRelease(col.logger)
+	of := newOutputFiles()
+	note := func(err error) {
+		if err != nil && collectErr == "" {
+			collectErr = err.Error()
+		}
+	}
+	for _, e := range events {
+		switch e.Kind {
+		case "action":
+			note(col.collectActionReport(ctx, of, &actionReport{
+				startTime: e.Ts, duration: 0.01, actor: e.Actor, action: e.Sig, result: result(e.Result), output: "exit status 0",
+			}))
+		case "obs":
+			typ := sigTypEvent
+			if e.IsNum {
+				typ = sigTypScalar
+			}
+			note(col.collectObservation(ctx, of, &observation{
+				ts: e.Ts, typ: typ, varName: varName{actorName: e.Actor, sigName: e.Sig}, val: e.Val,
+			}))
+		case "mood":
+			note(col.collectMoodChange(ctx, of, &moodChange{ts: e.Ts, newMood: e.Val}))
+		case "report":
+			_, err := col.collectAuditionReport(ctx, of, &auditionReport{
+				ts: e.Ts, auditor: e.Member, result: result(e.Result), output: e.Val,
+			})
+			note(err)
+		}
+	}
+	of.CloseAll()
+	files, _ := ioutil.ReadDir(filepath.Join(tmp, "csv"))
+	for _, f := range files {
+		if f.Size() > 0 {
+			csv = append(csv, f.Name())
+		}
+	}
+
+	for _, p := range moods {
+		ap.auRes.moodPeriods = append(ap.auRes.moodPeriods, moodPeriod{startTime: p.Start, endTime: p.End, mood: p.Mood})
+	}
+	for _, c := range acts {
+		ap.auRes.actChanges = append(ap.auRes.actChanges, &actChange{ts: c.Ts, actNum: c.ActNum})
+	}
+	ap.auRes.numRepeats = numRepeats
+
+	res := ap.assemble(ctx, nil)
+	out.MinTime, out.MaxTime = res.MinTime, res.MaxTime
+	if r := res.Repeat; r != nil {
+		out.HasRepeat = true
+		out.RepeatStart, out.RepeatFirst, out.RepeatLast, out.RepeatNum = r.StartTime, r.FirstRepeatedAct, r.LastRepeatedAct, r.NumRepeats
+	}
+	if err := ap.plot(ctx, res); err != nil {
+		out.PlotErr = err.Error()
+	}
+	out.Files = make(map[string]string)
+	pfiles, _ := ioutil.ReadDir(filepath.Join(tmp, "plots"))
+	for _, f := range pfiles {
+		b, _ := ioutil.ReadFile(filepath.Join(tmp, "plots", f.Name()))
+		out.Files[f.Name()] = string(b)
+	}
+	return out, collectErr, csv
+}
